@@ -1,14 +1,314 @@
 package gosym
 
-// big.Float in the SMT FloatingPoint theory (filled in by registerBigFloat).
+// math/big.Float.  Two models, chosen per harness (HarnessOpts.FloatMode):
+//
+//   "real" (default): a big.Float is an exact real number (SMT Real term).
+//          Rounding to the mantissa width is ignored; used where rounding is
+//          not the subject (bancor formula layer, reward price) and stated as
+//          outside the claim.
+//   "fp":  a big.Float of precision p is a FloatingPoint(fpEb, p) term with
+//          round-nearest-even, the big.Float default; used where rounding IS
+//          the subject (governance threshold).
+
+import (
+	"fmt"
+	"go/types"
+	"math"
+	"math/big"
+)
 
 type bigFloat struct {
-	Prec uint  // 0: not yet set (adopts the precision of the first operand)
-	T    *Term // FloatingPoint(fpEb, Prec) term; nil when Prec == 0 (value +0)
+	Prec uint  // fp mode: mantissa bits (0 = unset); real mode: informational
+	T    *Term // Real term (real mode) or FloatingPoint term (fp mode); nil = +0
+	FP   bool
 }
 
 const fpEb = 20
 
 func newBigFloatZero() value { return bigFloat{} }
 
-func registerBigFloat(e *Engine) {}
+func RealConstRat(r *big.Rat) *Term {
+	t := &Term{Op: "const", S: RealSort, Val: new(big.Int).Set(r.Num()), size: 1}
+	if r.Denom().Cmp(big.NewInt(1)) != 0 {
+		t.Den = new(big.Int).Set(r.Denom())
+	}
+	return t
+}
+
+func toReal(t *Term) *Term {
+	if t.IsConst() && t.S.K == SInt {
+		return RealConstRat(new(big.Rat).SetInt(t.Val))
+	}
+	return Raw("to_real", RealSort, t)
+}
+
+func realIsConst(t *Term) (*big.Rat, bool) {
+	if t.IsConst() && t.S.K == SReal {
+		d := big.NewInt(1)
+		if t.Den != nil {
+			d = t.Den
+		}
+		return new(big.Rat).SetFrac(t.Val, d), true
+	}
+	return nil, false
+}
+
+func realBin(op string, a, b *Term) *Term {
+	ra, oka := realIsConst(a)
+	rb, okb := realIsConst(b)
+	if oka && okb {
+		switch op {
+		case "+":
+			return RealConstRat(new(big.Rat).Add(ra, rb))
+		case "-":
+			return RealConstRat(new(big.Rat).Sub(ra, rb))
+		case "*":
+			return RealConstRat(new(big.Rat).Mul(ra, rb))
+		case "/":
+			if rb.Sign() != 0 {
+				return RealConstRat(new(big.Rat).Quo(ra, rb))
+			}
+		}
+	}
+	return Raw(op, RealSort, a, b)
+}
+
+func realCmp(op string, a, b *Term) *Term {
+	ra, oka := realIsConst(a)
+	rb, okb := realIsConst(b)
+	if oka && okb {
+		c := ra.Cmp(rb)
+		switch op {
+		case "<":
+			return BoolConst(c < 0)
+		case "=":
+			return BoolConst(c == 0)
+		case "<=":
+			return BoolConst(c <= 0)
+		}
+	}
+	return Raw(op, BoolSort, a, b)
+}
+
+func floatOf(v value) bigFloat {
+	p, ok := v.(*value)
+	if !ok {
+		panic(abortPath{"engine-error", fmt.Sprintf("floatOf: %T", v)})
+	}
+	if p == nil {
+		panic(runtimePanic("invalid memory address or nil pointer dereference (nil *big.Float)"))
+	}
+	f, ok := (*p).(bigFloat)
+	if !ok {
+		panic(abortPath{"engine-error", fmt.Sprintf("floatOf: pointee %T", *p)})
+	}
+	return f
+}
+
+func (f bigFloat) real() *Term {
+	if f.T == nil {
+		return RealConstRat(new(big.Rat))
+	}
+	return f.T
+}
+
+func setFloat(v value, f bigFloat) value {
+	p := v.(*value)
+	if p == nil {
+		panic(runtimePanic("nil *big.Float receiver"))
+	}
+	*p = f
+	return v
+}
+
+func fpMode(fr *frame) bool {
+	return fr.i.ctx.opts != nil && fr.i.ctx.opts.FloatMode == "fp"
+}
+
+// truncToInt is big.Float.Int: truncation toward zero of a real term.
+func truncToInt(t *Term) *Term {
+	if r, ok := realIsConst(t); ok {
+		q := new(big.Int).Quo(r.Num(), r.Denom())
+		return IntConst(q)
+	}
+	zero := RealConstRat(new(big.Rat))
+	return Ite(Raw(">=", BoolSort, t, zero), Raw("to_int", IntSort, t), Neg(Raw("to_int", IntSort, Raw("-", RealSort, t))))
+}
+
+func registerBigFloat(e *Engine) {
+	R := e.Register
+	newF := func(f bigFloat) value {
+		var cell value = f
+		return &cell
+	}
+	R("math/big.NewFloat", func(fr *frame, a []value) value {
+		x, ok := a[0].(float64)
+		if !ok {
+			panic(abortPath{"unsupported", "big.NewFloat of a symbolic float64"})
+		}
+		if math.IsNaN(x) {
+			panic(targetPanic{v: iface{t: types.Typ[types.String], v: "NewFloat(NaN)"}})
+		}
+		if fpMode(fr) {
+			return newF(fpFromFloat64(x))
+		}
+		r, _ := new(big.Rat).SetString(new(big.Float).SetFloat64(x).Text('f', -1))
+		if r == nil {
+			r = new(big.Rat).SetFloat64(x)
+		}
+		return newF(bigFloat{Prec: 53, T: RealConstRat(r)})
+	})
+	R("(*math/big.Float).SetPrec", func(fr *frame, a []value) value {
+		f := floatOf(a[0])
+		prec := uint(asInt64(a[1]))
+		if fpMode(fr) {
+			return setFloat(a[0], fpSetPrec(f, prec))
+		}
+		f.Prec = prec
+		return setFloat(a[0], f)
+	})
+	R("(*math/big.Float).SetInt", func(fr *frame, a []value) value {
+		f := floatOf(a[0])
+		x := bigOf(a[1])
+		if fpMode(fr) {
+			return setFloat(a[0], fpSetInt(fr, f, x))
+		}
+		return setFloat(a[0], bigFloat{Prec: f.Prec, T: toReal(x)})
+	})
+	R("(*math/big.Float).SetInt64", func(fr *frame, a []value) value {
+		f := floatOf(a[0])
+		x, _ := intTerm(a[1])
+		if fpMode(fr) {
+			return setFloat(a[0], fpSetInt(fr, f, x))
+		}
+		return setFloat(a[0], bigFloat{Prec: f.Prec, T: toReal(x)})
+	})
+	R("(*math/big.Float).SetFloat64", func(fr *frame, a []value) value {
+		x, ok := a[1].(float64)
+		if !ok {
+			panic(abortPath{"unsupported", "SetFloat64 of symbolic float64"})
+		}
+		f := floatOf(a[0])
+		if fpMode(fr) {
+			g := fpFromFloat64(x)
+			if f.Prec != 0 {
+				g = fpSetPrec(g, f.Prec)
+			}
+			return setFloat(a[0], g)
+		}
+		return setFloat(a[0], bigFloat{Prec: f.Prec, T: RealConstRat(new(big.Rat).SetFloat64(x))})
+	})
+	R("(*math/big.Float).SetRat", func(fr *frame, a []value) value {
+		f := floatOf(a[0])
+		p := a[1].(*value)
+		r := (*p).(bigRat)
+		if fpMode(fr) {
+			panic(abortPath{"unsupported", "big.Float.SetRat in fp mode"})
+		}
+		return setFloat(a[0], bigFloat{Prec: f.Prec, T: realBin("/", toReal(r.N), toReal(r.D))})
+	})
+	R("(*math/big.Float).Set", func(fr *frame, a []value) value {
+		f, x := floatOf(a[0]), floatOf(a[1])
+		if fpMode(fr) {
+			g := x
+			if f.Prec != 0 && f.Prec != x.Prec {
+				g = fpSetPrec(x, f.Prec)
+			}
+			return setFloat(a[0], g)
+		}
+		return setFloat(a[0], bigFloat{Prec: f.Prec, T: x.T})
+	})
+	bin := func(op string) intrinsic {
+		return func(fr *frame, a []value) value {
+			z, x, y := floatOf(a[0]), floatOf(a[1]), floatOf(a[2])
+			if fpMode(fr) {
+				return setFloat(a[0], fpBin(fr, op, z, x, y))
+			}
+			if op == "/" {
+				if rz, ok := realIsConst(y.real()); ok && rz.Sign() == 0 {
+					panic(abortPath{"unsupported", "big.Float division by zero (Inf)"})
+				}
+				zero := RealConstRat(new(big.Rat))
+				if _, ok := realIsConst(y.real()); !ok && fr.i.decide(realCmp("=", y.real(), zero)) {
+					panic(abortPath{"unsupported", "big.Float division by a possibly-zero value (Inf)"})
+				}
+			}
+			return setFloat(a[0], bigFloat{Prec: z.Prec, T: realBin(op, x.real(), y.real())})
+		}
+	}
+	R("(*math/big.Float).Add", bin("+"))
+	R("(*math/big.Float).Sub", bin("-"))
+	R("(*math/big.Float).Mul", bin("*"))
+	R("(*math/big.Float).Quo", bin("/"))
+	R("(*math/big.Float).Neg", func(fr *frame, a []value) value {
+		z, x := floatOf(a[0]), floatOf(a[1])
+		if fpMode(fr) {
+			panic(abortPath{"unsupported", "big.Float.Neg in fp mode"})
+		}
+		return setFloat(a[0], bigFloat{Prec: z.Prec, T: realBin("-", RealConstRat(new(big.Rat)), x.real())})
+	})
+	R("(*math/big.Float).Cmp", func(fr *frame, a []value) value {
+		x, y := floatOf(a[0]), floatOf(a[1])
+		if fpMode(fr) {
+			return fpCmp(x, y)
+		}
+		lt := realCmp("<", x.real(), y.real())
+		eq := realCmp("=", x.real(), y.real())
+		return mkInt(Ite(lt, IntConst64(-1), Ite(eq, IntConst64(0), IntConst64(1))), types.Int)
+	})
+	R("(*math/big.Float).Sign", func(fr *frame, a []value) value {
+		x := floatOf(a[0])
+		if fpMode(fr) {
+			panic(abortPath{"unsupported", "big.Float.Sign in fp mode"})
+		}
+		zero := RealConstRat(new(big.Rat))
+		return mkInt(Ite(realCmp("<", x.real(), zero), IntConst64(-1), Ite(realCmp("=", x.real(), zero), IntConst64(0), IntConst64(1))), types.Int)
+	})
+	R("(*math/big.Float).Int", func(fr *frame, a []value) value {
+		x := floatOf(a[0])
+		if fpMode(fr) {
+			panic(abortPath{"unsupported", "big.Float.Int in fp mode"})
+		}
+		r := truncToInt(x.real())
+		var z value
+		if p, ok := a[1].(*value); ok && p != nil {
+			z = setBig(a[1], r)
+		} else {
+			z = bigCell(r)
+		}
+		return tuple{z, int8(0)} // accuracy not modelled
+	})
+	R("(*math/big.Float).String", opaqueString)
+	R("(*math/big.Float).Text", opaqueString)
+	R("(*math/big.Float).Prec", func(fr *frame, a []value) value { return floatOf(a[0]).Prec })
+
+	// ---- the repository's own math package: Pow/Exp/Log as an uninterpreted
+	// function over the reals with the facts listed in DESIGN.md §2.5
+	mp := e.ModulePath + "/math"
+	R(mp+".Pow", func(fr *frame, a []value) value {
+		if fpMode(fr) {
+			panic(abortPath{"unsupported", "math.Pow in fp mode"})
+		}
+		z, w := floatOf(a[0]), floatOf(a[1])
+		zero := RealConstRat(new(big.Rat))
+		one := RealConstRat(big.NewRat(1, 1))
+		zt, wt := z.real(), w.real()
+		if fr.i.decide(realCmp("<", zt, zero)) {
+			panic(targetPanic{v: iface{t: types.Typ[types.String], v: "Pow: negative base"}, pos: callerPos(fr)})
+		}
+		c := fr.i.ctx
+		r := App("math.Pow", RealSort, zt, wt)
+		c.RecordUF("math.Pow", r, zt, wt)
+		wpos := realCmp("<", zero, wt)
+		c.Constrain(Implies(realCmp("<", zero, zt), realCmp("<", zero, r)))
+		c.Constrain(Implies(realCmp("=", zt, one), realCmp("=", r, one)))
+		c.Constrain(Implies(And(realCmp("<", zero, zt), realCmp("<=", zt, one), wpos), realCmp("<=", r, one)))
+		c.Constrain(Implies(And(realCmp("<=", one, zt), wpos), realCmp("<=", one, r)))
+		c.Constrain(Implies(realCmp("=", wt, one), realCmp("=", r, zt)))
+		c.Constrain(Implies(realCmp("=", wt, zero), realCmp("=", r, one)))
+		c.Constrain(Implies(And(realCmp("=", zt, zero), wpos), realCmp("=", r, zero)))
+		return newF(bigFloat{Prec: 100, T: r})
+	})
+}
+
+// ---- fp mode (filled in by fp.go)
